@@ -718,3 +718,54 @@ _base_scn2 = scenarios
 
 def scenarios():
     return _base_scn2() + [ecdh_encrypt('Curve25519'), ecdh_encrypt('NIST')]
+
+
+def eckdf_derive():
+    """ECKDF.derive_key: RFC 6637 section 7 Param layout and KDF wiring"""
+    label = 'C03/ECKDF.derive_key'
+    KDF = 'pgpy.packet.fields.ECKDF'
+
+    def gen(repo):
+        r = scn.Run(repo, KDF, 'derive_key', label)
+        ex, st = r.ex, r.st
+        scn.cipher_facts(r)
+        me = E.VObj(KDF, 'kdf')
+        r.set('kdf', '_halg', E.VInt(8, enum='pgpy.constants.HashAlgorithm'))
+        r.set('kdf', '_encalg', E.VInt(7, enum='pgpy.constants.SymmetricKeyAlgorithm'))      # AES-128: 16-octet KEK
+        S = z3.Const('SHARED_SECRET', B)
+        OIDDER = z3.Const('DER_OF_CURVE_OID', B)
+        st.pc += [z3.Length(OIDDER) >= 1]
+        curve = E.VExt('curve-oid', ())
+        ex.hooks[('ext:curve-oid', 'value')] = lambda ex, st, o, a: [(st, E.VExt('oid-value', ()))]
+        ex.hooks[('ext:curve-oid', 'value')].is_method = False
+        ex.hooks[('ext', 'encoder.encode')] = lambda ex, st, o, a: [(st, E.VBytes(OIDDER))] if isinstance(a[0], E.VExt) and a[0].name == 'oid-value' else [(st, E.VBytes(z3.Const('OTHER', B)))]
+        FPRHEX = z3.Const('FINGERPRINT_HEX', B)
+        fpr = E.VStr(z=FPRHEX)
+        PA = repo.enum_members('pgpy.constants.PubKeyAlgorithm')
+        outs = r.call(me, [E.VBytes(S), curve, E.VInt(PA['ECDH'], enum='pgpy.constants.PubKeyAlgorithm'), fpr])
+        UNHEX = z3.Function('UNHEXLIFY', B, B)
+        REPL = z3.Function("STR_REPLACE[' '->'']", B, B)
+        for pi, (s, v) in enumerate(outs):
+            if isinstance(v, E.Raise):
+                r.oblige(s, 'safety(%s)/p%d' % (v.exc, pi), z3.BoolVal(False), v.where)
+                continue
+            ok = isinstance(v, E.VExt) and v.name == 'ConcatKDFHash.derive' and isinstance(v.args[0], E.VExt) and v.args[0].name == 'ConcatKDFHash'
+            r.oblige(s, 'concat-kdf-of-the-shared-secret/p%d' % pi, z3.And(z3.BoolVal(bool(ok)), ex.seq(v.args[1], s) == S if ok else z3.BoolVal(False)))
+            if not ok:
+                continue
+            kw = v.args[0].kws
+            r.oblige(s, 'kek-length-is-the-key-size-of-the-kek-cipher/p%d' % pi, ex.as_int(kw['length']) == 16)
+            alg = kw.get('algorithm')
+            r.oblige(s, 'kdf-hash-is-the-one-named-in-the-key/p%d' % pi, z3.BoolVal(isinstance(alg, E.VExt) and alg.name.startswith('hashes.SHA256')))
+            param = cat(z3.Extract(OIDDER, 1, z3.Length(OIDDER) - 1), U(PA['ECDH']), U(3), U(1), U(8), U(7),
+                        scn.lit(b'Anonymous Sender    '), UNHEX(REPL(FPRHEX)))
+            r.oblige(s, 'rfc6637-7:Param=oid||alg||03 01 hash kek||"Anonymous Sender    "||fingerprint/p%d' % pi, ex.seq(kw['otherinfo'], s) == param)
+        return r.result()
+    return Scenario(label, KDF + '.derive_key', gen, props=('C03',))
+
+
+_base_scn3 = scenarios
+
+
+def scenarios():
+    return _base_scn3() + [eckdf_derive()]
